@@ -509,6 +509,10 @@ def gen_misc(tier, rng):
             for fn in ("add", "subtract", "multiply", "maximum", "minimum"):
                 yield {"fn": fn, "args": [a(s1), a(s2, poly=rng.random() < 0.6)], "kwargs": {}}
             yield {"fn": "power", "args": [a(s1), A(rng, s2, "int64", poly=False, pool=[0, 1, 2, 3])], "kwargs": {}}
+            # negative and fractional exponents of CONSTANT float bases: numpy.power's values (int bases with negative
+            # exponents are refused by numpy itself and dropped)
+            yield {"fn": "power", "args": [A(rng, s1, "float64", pool=[0.5, 1.0, 2.0, 4.0, 9.0]), A(rng, s2, "float64", poly=False, pool=[-1.0, 0.5, 2.0, -2.0, 0.0, 1.5])],
+                   "kwargs": {}}
             cond = A(rng, numpy.broadcast_shapes(s1, s2), "bool", poly=False)
             yield {"fn": "where", "args": [cond, a(s1), a(s2, poly=rng.random() < 0.6)], "kwargs": {}}
             yield {"fn": "where", "args": [A(rng, s1, "bool", poly=False), a(s1), a(s2)], "kwargs": {}}
